@@ -316,7 +316,11 @@ func runClientConnExecution(t *testing.T, seed int64, log *traceLog) {
 			for readLogged() {
 			}
 			d := time.Duration(1+rng.Intn(9000)) * time.Millisecond
-			if by == "close" {
+			late := by == "deadline" && rng.Intn(2) == 0 // the deadline is set while the reader is already blocked
+			if late {
+				by = "deadline set while blocked"
+			}
+			if by == "close" || late {
 				_ = relay.SetReadDeadline(time.Time{})
 			} else {
 				_ = relay.SetReadDeadline(time.Now().Add(d))
@@ -334,7 +338,14 @@ func runClientConnExecution(t *testing.T, seed int64, log *traceLog) {
 				done <- time.Since(t0)
 			}()
 			synctest.Wait()
-			if by == "close" {
+			if late { // a deadline applies to a pending read as well (net.PacketConn)
+				d1 := time.Duration(rng.Intn(3000)) * time.Millisecond
+				time.Sleep(d1)
+				_ = relay.SetReadDeadline(time.Now().Add(d))
+				d += d1
+				time.Sleep(d - d1 + time.Millisecond)
+				synctest.Wait()
+			} else if by == "close" {
 				time.Sleep(d)
 				log.add(map[string]any{"e": "Close"})
 				_ = relay.Close()
